@@ -1,13 +1,390 @@
-import Capnp.Model.Packed
-namespace Capnp.Props.C13
-open Capnp.Spec.Packing Capnp.Model.Packed
+import Capnp.Lemmas.Packed
+/-!
+# C13 — packed encoding is a lossless, spec-conformant, truncation-safe codec
 
-theorem unpackWord_eq_slowWord (bs : List Bool) (s : List UInt8) : slowWord bs s = unpackWord bs s := by
+Property theorems only (helper lemmas live in `Capnp.Lemmas.Packed`).  `Spec.Packing.unpackStrict`
+is the packing grammar of the encoding spec as a strict decoder; `Model.Packed.*` is the model of
+`internal/packed/packed.go`.
+-/
+namespace Capnp.Props.C13
+open Capnp.Spec.Packing Capnp.Model.Packed Capnp.Lemmas.Packed
+
+/-- the byte-wise slow path of `Unpack`/`ReadWord` is the spec's word decoder -/
+theorem slowWord_eq_spec (bs : List Bool) (s : List UInt8) : slowWord bs s = unpackWord bs s := by
   induction bs generalizing s with
   | nil => simp [slowWord, unpackWord]
   | cons b bs ih =>
     cases b
     · simp [slowWord, unpackWord, ih]
     · cases s <;> simp [slowWord, unpackWord, ih]
+
+/-- the unrolled fast path (`p[k] = src[i] & -nz; i += nz`) is the spec's word decoder whenever
+    enough input is available (the code requires `len(src) ≥ 8`) -/
+theorem fastWord_eq_spec (bs : List Bool) (src : List UInt8) (i : Nat) (h : i + bs.length ≤ src.length) :
+    unpackWord bs (src.drop i) = some ((fastWord bs src i).1, src.drop (fastWord bs src i).2) := by
+  induction bs generalizing i with
+  | nil => simp [unpackWord, fastWord]
+  | cons b bs ih =>
+    simp only [List.length_cons] at h
+    cases b with
+    | false =>
+      simp only [unpackWord, fastWord, Bool.false_eq_true, ↓reduceIte]
+      rw [ih i (by omega)]; rfl
+    | true =>
+      have hi : i < src.length := by omega
+      rw [List.drop_eq_getElem_cons hi]
+      simp only [unpackWord, fastWord, ↓reduceIte]
+      rw [ih (i+1) (by omega)]
+      simp [List.getD_eq_getElem?_getD, List.getElem?_eq_getElem hi]
+
+theorem bitsOfTag_length (t : UInt8) : (bitsOfTag t).length = 8 := by simp [bitsOfTag]
+
+/-- **Unpack = strict spec decoder**, on every input: same acceptability, same output.
+    (Fails on the pinned tree before fix 646d64a: truncated literal runs were zero-filled.) -/
+theorem goUnpackFuel_eq_spec (f : Nat) (s : List UInt8) :
+    Capnp.Spec.Packing.unpackFuel f s = if (goUnpackFuel f s).2 then some (goUnpackFuel f s).1 else none := by
+  induction f generalizing s with
+  | zero => cases s <;> simp [unpackFuel, goUnpackFuel]
+  | succ f ih =>
+    cases s with
+    | nil => simp [unpackFuel, goUnpackFuel]
+    | cons tag src =>
+      simp only [unpackFuel, goUnpackFuel]
+      have hw : (if src.length ≥ 8 then
+            some ((fastWord (bitsOfTag tag) src 0).1, src.drop (fastWord (bitsOfTag tag) src 0).2)
+          else slowWord (bitsOfTag tag) src) = unpackWord (bitsOfTag tag) src := by
+        split
+        · rename_i h8
+          have := fastWord_eq_spec (bitsOfTag tag) src 0 (by rw [bitsOfTag_length]; omega)
+          simpa using this.symm
+        · exact slowWord_eq_spec _ _
+      rw [hw]
+      cases unpackWord (bitsOfTag tag) src with
+      | none => simp
+      | some p =>
+        obtain ⟨w, s'⟩ := p
+        simp only
+        split
+        · cases s' with
+          | nil => simp
+          | cons n s'' =>
+            simp only [ih s'']
+            split <;> simp
+        · split
+          · cases s' with
+            | nil => simp
+            | cons n s'' =>
+              simp only
+              by_cases hlt : s''.length < 8 * n.toNat
+              · have : min (8 * n.toNat) s''.length < 8 * n.toNat := by omega
+                simp [hlt, this]
+              · have hmin : min (8 * n.toNat) s''.length = 8 * n.toNat := by omega
+                simp only [hlt, hmin, ↓reduceIte, Nat.lt_irrefl, Nat.sub_self, ih]
+                split <;> simp [zeros]
+          · simp only [ih s']
+            split <;> simp
+
+/-- one-shot `Unpack` agrees with the strict spec decoder on all inputs -/
+theorem unpack_eq_strict (s : List UInt8) :
+    unpackStrict s = if (goUnpack s).2 then some (goUnpack s).1 else none :=
+  goUnpackFuel_eq_spec s.length s
+
+/-- truncated input is an error, never completed with invented bytes:
+    whatever `Unpack` accepts, the strict decoder derives from the input alone -/
+theorem unpack_accepts_only_spec (s y : List UInt8) (h : goUnpack s = (y, true)) : unpackStrict s = some y := by
+  rw [unpack_eq_strict, h]; rfl
+
+/-- **Round trip and spec conformance of `Pack`**: for any list of 8-byte words, the strict decoder
+    written from the packing spec (an "independent implementation") recovers exactly the payload
+    from the model's `Pack` output — all zero/non-zero patterns, all run lengths (the 255-word limits
+    of zero runs and literal runs are the `min … 255` / `literalRun 255` case splits). -/
+theorem strict_packFuel (f : Nat) (ws : List Word) (hw : ∀ w ∈ ws, w.length = 8) (hf : ws.length ≤ f) :
+    unpackStrict (packFuel f ws) = some ws.flatten := by
+  induction f generalizing ws with
+  | zero =>
+    cases ws with
+    | nil => simp [packFuel, unpackStrict_nil]
+    | cons w ws => simp at hf
+  | succ f ih =>
+    cases ws with
+    | nil => simp [packFuel, unpackStrict_nil]
+    | cons w ws =>
+      have hw8 : w.length = 8 := hw w (by simp)
+      have hws : ∀ w' ∈ ws, w'.length = 8 := fun w' h' => hw w' (by simp [h'])
+      simp only [List.length_cons, Nat.add_le_add_iff_right] at hf
+      simp only [packFuel]
+      split
+      · -- zero tag: a run of up to 255 further zero words
+        rename_i h0
+        obtain ⟨hz, hnz⟩ := zero_of_tag_zero w hw8 h0
+        have hzle := numZeroWords_le ws
+        rw [show tagOf w :: w.filter (· != 0) ++ [UInt8.ofNat (min (numZeroWords ws) 255)] ++
+              packFuel f (ws.drop (min (numZeroWords ws) 255)) =
+            tagOf w :: (w.filter (· != 0) ++ (UInt8.ofNat (min (numZeroWords ws) 255) ::
+              packFuel f (ws.drop (min (numZeroWords ws) 255)))) by simp [List.append_assoc]]
+        rw [unpackStrict_cons, unpackWord_tagOf w _ hw8]
+        simp only [h0, ↓reduceIte]
+        have hdrop : ∀ w' ∈ ws.drop (min (numZeroWords ws) 255), w'.length = 8 :=
+          fun w' h' => hws w' (List.mem_of_mem_drop h')
+        rw [ih _ hdrop (by simp; omega)]
+        have hn : (UInt8.ofNat (min (numZeroWords ws) 255)).toNat = min (numZeroWords ws) 255 := by
+          simp; omega
+        simp only [Option.map_some, hn, List.flatten_cons, Option.some.injEq]
+        rw [← take_zero_words ws _ hws (by omega)]
+        simp [List.append_assoc, ← List.flatten_append]
+      · split
+        · -- 0xff tag: a literal run of up to 255 further words
+          rename_i h0 hff
+          have hfull := full_of_tag_ff w hw8 hff
+          obtain ⟨hl1, hl2⟩ := literalRun_le 255 ws
+          rw [show tagOf w :: w.filter (· != 0) ++ [UInt8.ofNat (literalRun 255 ws)] ++ (ws.take (literalRun 255 ws)).flatten ++
+                packFuel f (ws.drop (literalRun 255 ws)) =
+              tagOf w :: (w.filter (· != 0) ++ (UInt8.ofNat (literalRun 255 ws) :: ((ws.take (literalRun 255 ws)).flatten ++
+                packFuel f (ws.drop (literalRun 255 ws))))) by simp [List.append_assoc]]
+          rw [unpackStrict_cons, unpackWord_tagOf w _ hw8]
+          simp only [hff, ↓reduceIte]
+          have h255 : ¬ ((255 : UInt8) = 0) := by decide
+          simp only [h255, ↓reduceIte]
+          have hn : (UInt8.ofNat (literalRun 255 ws)).toNat = literalRun 255 ws := by
+            simp; omega
+          have htl : (ws.take (literalRun 255 ws)).flatten.length = 8 * literalRun 255 ws := by
+            rw [flatten_length8 _ (fun w' h' => hws w' (List.mem_of_mem_take h'))]
+            simp; omega
+          have hdrop : ∀ w' ∈ ws.drop (literalRun 255 ws), w'.length = 8 :=
+            fun w' h' => hws w' (List.mem_of_mem_drop h')
+          rw [hn]
+          have hnlt : ¬ (((ws.take (literalRun 255 ws)).flatten ++ packFuel f (ws.drop (literalRun 255 ws))).length
+              < 8 * literalRun 255 ws) := by simp [htl]
+          simp only [hnlt, ↓reduceIte]
+          rw [List.drop_left' htl, List.take_left' htl, ih _ hdrop (by simp; omega)]
+          simp only [Option.map_some, List.flatten_cons, Option.some.injEq]
+          simp [List.append_assoc, ← List.flatten_append]
+        · -- ordinary tag
+          rename_i h0 hff
+          rw [List.cons_append, unpackStrict_cons, unpackWord_tagOf w _ hw8]
+          simp only [h0, hff, ↓reduceIte]
+          rw [ih ws hws hf]
+          simp
+
+/-- packed form is decodable by an independent implementation of the spec, and decodes to `x` -/
+theorem strict_pack (ws : List Word) (hw : ∀ w ∈ ws, w.length = 8) : unpackStrict (pack ws) = some ws.flatten :=
+  strict_packFuel ws.length ws hw (Nat.le_refl _)
+
+/-- **`Unpack (Pack x) = x`** for every word-aligned payload -/
+theorem unpack_pack (ws : List Word) (hw : ∀ w ∈ ws, w.length = 8) : goUnpack (pack ws) = (ws.flatten, true) := by
+  have h := unpack_eq_strict (pack ws)
+  rw [strict_pack ws hw] at h
+  split at h
+  · rename_i h2
+    simp only [Option.some.injEq] at h
+    exact Prod.ext h.symm h2
+  · simp at h
+
+/-! ## Streaming reader: every step refines the strict decoder, for every `Buffered()` oracle -/
+
+/-- what the rest of the stream denotes, given the reader's state -/
+def denote (st : RState) : Option (List UInt8) :=
+  match st.err with
+  | some .eof => some []
+  | some .unexpected => none
+  | none =>
+    let tail :=
+      if st.literal > 0 then
+        if st.rest.length < 8 * st.literal then none
+        else (unpackStrict (st.rest.drop (8 * st.literal))).map (fun r => st.rest.take (8 * st.literal) ++ r)
+      else unpackStrict st.rest
+    tail.map (fun r => zeros (8 * st.zeroes) ++ r)
+
+theorem denote_init (s : List UInt8) : denote (RState.init s) = unpackStrict s := by
+  simp [denote, RState.init, zeros]
+
+theorem denote_afterTag (tag : UInt8) (w s' : List UInt8) :
+    (denote (afterTag tag s')).map (fun r => w ++ r) =
+      if tag = 0 then
+        match s' with
+        | [] => none
+        | n :: s'' => (unpackStrict s'').map (fun r => w ++ zeros (8 * n.toNat) ++ r)
+      else if tag = 255 then
+        match s' with
+        | [] => none
+        | n :: s'' =>
+          if s''.length < 8 * n.toNat then none
+          else (unpackStrict (s''.drop (8 * n.toNat))).map (fun r => w ++ s''.take (8 * n.toNat) ++ r)
+      else (unpackStrict s').map (fun r => w ++ r) := by
+  unfold afterTag
+  split
+  · cases s' with
+    | nil => simp [denote]
+    | cons n s'' => simp [denote, Option.map_map, Function.comp_def, List.append_assoc]
+  · split
+    · cases s' with
+      | nil => simp [denote]
+      | cons l s'' =>
+        by_cases hl : l.toNat = 0
+        · simp [denote, hl, zeros]
+        · have : l.toNat > 0 := by omega
+          simp only [denote, this, ↓reduceIte, zeros, Nat.mul_zero, List.replicate_zero, List.nil_append]
+          split <;> simp [Option.map_map, Function.comp_def, List.append_assoc]
+    · simp [denote, zeros]
+
+/-- **One `ReadWord` step refines the strict decoder**, whatever `Buffered()` returns:
+    a delivered word is the next 8 bytes of the spec's output; `io.EOF` is reported only where the
+    spec's output ends; an error is reported only where the spec rejects the input. -/
+theorem readWord_refines (st : RState) (buffered : Nat) :
+    match readWord st buffered with
+    | (st', .ok w) => denote st = (denote st').map (fun r => w ++ r)
+    | (_, .error .eof) => denote st = some []
+    | (_, .error .unexpected) => denote st = none := by
+  obtain ⟨rest, err, zeroes, literal⟩ := st
+  unfold readWord
+  cases err with
+  | some e => cases e <;> simp [denote]
+  | none =>
+    simp only
+    by_cases hz : zeroes > 0
+    · -- inside a zero run
+      simp only [hz, ↓reduceIte, denote]
+      have : 8 * zeroes = 8 + 8 * (zeroes - 1) := by omega
+      rw [this, zeros_add]
+      simp [Function.comp_def, List.append_assoc]
+    · have hz0 : zeroes = 0 := by omega
+      subst hz0
+      simp only [Nat.lt_irrefl, ↓reduceIte, gt_iff_lt]
+      by_cases hl : 0 < literal
+      · -- inside a literal run
+        simp only [hl, ↓reduceIte]
+        by_cases h8 : rest.length ≥ 8
+        · simp only [h8, ↓reduceIte, denote, hl, zeros, Nat.mul_zero, List.replicate_zero, List.nil_append,
+            Option.map_id', List.length_drop]
+          by_cases hl1 : 0 < literal - 1
+          · simp only [hl1, ↓reduceIte, List.drop_drop]
+            have e1 : 8 * (literal - 1) + 8 = 8 * literal := by omega
+            have e2 : 8 + 8 * (literal - 1) = 8 * literal := by omega
+            by_cases hlt : rest.length < 8 * literal
+            · have : rest.length - 8 < 8 * (literal - 1) := by omega
+              simp [hlt, this]
+            · have : ¬ (rest.length - 8 < 8 * (literal - 1)) := by omega
+              have ht : List.take (8 * literal) rest = rest.take 8 ++ (rest.drop 8).take (8 * (literal - 1)) := by
+                rw [← e2, List.take_add]
+              simp only [hlt, this, ↓reduceIte, e2, ht, Option.map_map, Function.comp_def, List.append_assoc]
+          · have h1 : literal = 1 := by omega
+            subst h1
+            have : ¬ (rest.length < 8) := by omega
+            simp [this]
+        · have : rest.length < 8 * literal := by omega
+          simp [h8, denote, hl, this]
+      · -- a new tagged word
+        have hl0 : literal = 0 := by omega
+        subst hl0
+        simp only [Nat.lt_irrefl, ↓reduceIte]
+        cases rest with
+        | nil => simp [denote, zeros, unpackStrict_nil]
+        | cons tag src =>
+          simp only
+          have hden : denote ⟨tag :: src, none, 0, 0⟩ = unpackStrict (tag :: src) := by simp [denote, zeros]
+          rw [hden, unpackStrict_cons]
+          by_cases hfast : buffered ≥ 9 ∧ src.length ≥ 8
+          · simp only [hfast, and_self, ↓reduceIte]
+            have := fastWord_eq_spec (bitsOfTag tag) src 0 (by rw [bitsOfTag_length]; omega)
+            simp only [List.drop_zero] at this
+            rw [this]
+            simp only
+            rw [denote_afterTag]
+            rfl
+          · simp only [hfast, ↓reduceIte]
+            rw [slowWord_eq_spec]
+            cases unpackWord (bitsOfTag tag) src with
+            | none => simp
+            | some p =>
+              obtain ⟨w, s'⟩ := p
+              simp only
+              rw [denote_afterTag]
+              rfl
+
+/-- **Streaming = strict decoder (soundness, any chunking)**: whenever reading word by word ends
+    with a clean `io.EOF`, the strict decoder accepts the input and yields exactly the words read.
+    Hence streaming never accepts a truncated input (fails before fix b2023f5). -/
+theorem readAll_sound (fuel : Nat) (st : RState) (oracle : Nat → Nat) (k : Nat)
+    (h : (readAll fuel st oracle k).2 = true) : denote st = some (readAll fuel st oracle k).1 := by
+  induction fuel generalizing st k with
+  | zero => simp [readAll] at h
+  | succ fuel ih =>
+    have hr := readWord_refines st (oracle k)
+    simp only [readAll] at h ⊢
+    rcases hrw : readWord st (oracle k) with ⟨st', res⟩
+    · rw [hrw] at hr h
+      cases res with
+      | error e =>
+        cases e with
+        | eof => simpa using hr
+        | unexpected => simp at h
+      | ok w =>
+        simp only at hr h ⊢
+        rw [hr, ih st' (k+1) h]
+        simp
+
+theorem stream_sound (s : List UInt8) (fuel : Nat) (oracle : Nat → Nat) (y : List UInt8)
+    (h : readAll fuel (RState.init s) oracle 0 = (y, true)) : unpackStrict s = some y := by
+  have := readAll_sound fuel (RState.init s) oracle 0 (by rw [h])
+  rw [denote_init, h] at this
+  exact this
+
+/-- **Bounded growth**: accepted output is at most 1024 bytes per input byte (the spec's maximum:
+    a `00 ff` pair denotes 256 zero words). -/
+theorem growth_fuel (f : Nat) (s y : List UInt8) (h : Capnp.Spec.Packing.unpackFuel f s = some y) :
+    y.length ≤ 1024 * s.length := by
+  induction f generalizing s y with
+  | zero => cases s <;> simp [unpackFuel] at h; subst h; simp
+  | succ f ih =>
+    cases s with
+    | nil => simp [unpackFuel] at h; subst h; simp
+    | cons tag s =>
+      simp only [unpackFuel] at h
+      cases hw : unpackWord (bitsOfTag tag) s with
+      | none => simp [hw] at h
+      | some p =>
+        obtain ⟨w, s'⟩ := p
+        obtain ⟨hl, hwl⟩ := unpackWord_length _ _ _ _ hw
+        rw [bitsOfTag_length] at hwl
+        simp only [hw] at h
+        split at h
+        · cases s' with
+          | nil => simp at h
+          | cons n s'' =>
+            simp only [Option.map_eq_some_iff] at h
+            obtain ⟨r, hr, rfl⟩ := h
+            have := ih s'' r hr
+            have hn : n.toNat < 256 := n.toNat_lt
+            simp only [List.length_cons, List.length_append, zeros, List.length_replicate] at *
+            omega
+        · split at h
+          · cases s' with
+            | nil => simp at h
+            | cons n s'' =>
+              simp only at h
+              split at h
+              · simp at h
+              · rename_i hlen
+                simp only [Option.map_eq_some_iff] at h
+                obtain ⟨r, hr, rfl⟩ := h
+                have := ih _ r hr
+                simp only [List.length_cons, List.length_append, List.length_drop, List.length_take] at *
+                omega
+          · simp only [Option.map_eq_some_iff] at h
+            obtain ⟨r, hr, rfl⟩ := h
+            have := ih s' r hr
+            simp only [List.length_cons, List.length_append] at *
+            omega
+
+theorem growth (s y : List UInt8) (h : unpackStrict s = some y) : y.length ≤ 1024 * s.length :=
+  growth_fuel s.length s y h
+
+/-- growth bound for the Go decoder, via `unpack_eq_strict` -/
+theorem unpack_growth (s y : List UInt8) (h : goUnpack s = (y, true)) : y.length ≤ 1024 * s.length :=
+  growth s y (unpack_accepts_only_spec s y h)
+
+-- non-vacuity: a payload that exercises a zero run, a literal run and an ordinary word
+example : (∀ w ∈ ([[0,0,0,0,0,0,0,0],[0,0,0,0,0,0,0,0],[1,2,3,4,5,6,7,8],[1,2,3,4,5,6,7,9],[0,0,5,0,0,0,0,0]] : List Word),
+    w.length = 8) := by decide
 
 end Capnp.Props.C13
